@@ -1,10 +1,662 @@
-//! C20 — not built yet.
+//! C20 Route origin validation follows RFC 6811.
+//!
+//! Reference: an own cover test on left-aligned u128 address bits. Routes are derived from the
+//! generated VRPs (equal, inside, at max-len -1/=/+1, covering, sibling, other family) so that
+//! the interesting relations are the common case. Observed through `RouteValidity`, the request
+//! list readers/writers used by the `validate` command, both GET endpoints of the real HTTP
+//! dispatcher, the batch POST endpoint over a loopback listener and the `validate` command line run
+//! in a child process (`rvchild routinator …`, the steps of routinator's main.rs).
+
+use std::net::{IpAddr, Ipv4Addr, Ipv6Addr, SocketAddr};
+
+use proptest::prelude::*;
+use routinator::metrics::Metrics;
+use routinator::validity::{RequestList, RouteState, RouteValidity};
+use rpki::resources::addr::Prefix;
+use rpki::resources::asn::Asn;
+use serde::{Deserialize, Serialize};
 
 use crate::core::*;
+use crate::fmtx::*;
+use crate::parsers::*;
+use crate::pay::*;
 
-pub const IMPLEMENTED: bool = false;
+#[derive(Serialize, Deserialize, Clone, Debug, PartialEq, Eq, Hash)]
+pub struct Route {
+    pub addr: IpAddr,
+    pub len: u8,
+    pub asn: u32,
+}
 
-pub fn run(_ctx: &Ctx, _rep: &mut Report, _replay: Option<&serde_json::Value>) {
-    eprintln!("C20: check not implemented");
-    std::process::exit(2);
+impl Route {
+    fn bits(&self) -> u128 {
+        match self.addr {
+            IpAddr::V4(a) => (u32::from(a) as u128) << 96,
+            IpAddr::V6(a) => u128::from(a),
+        }
+    }
+    fn prefix(&self) -> Prefix {
+        Prefix::new(self.addr, self.len).expect("route prefix")
+    }
+    fn text(&self) -> String {
+        format!("{}/{}", self.addr, self.len)
+    }
+}
+
+/// How a route is derived from the VRP set.
+#[derive(Serialize, Deserialize, Clone, Debug)]
+pub struct RouteSpec {
+    /// index into the VRP list (modulo its length)
+    pub vrp: usize,
+    /// 0 equal, 1 inside (len+k), 2 len=max_len-1, 3 len=max_len, 4 len=max_len+1, 5 covering (len-k),
+    /// 6 sibling, 7 other family, 8 unrelated random
+    pub rel: u8,
+    pub k: u8,
+    pub bits: u128,
+    /// 0 VRP's AS, 1 AS of the next VRP, 2 AS0, 3 VRP's AS + 1, 4 random
+    pub asn_sel: u8,
+    pub asn_rnd: u32,
+}
+
+#[derive(Serialize, Deserialize, Clone, Debug)]
+pub struct Case {
+    pub vrps: Vec<MOrigin>,
+    pub specs: Vec<RouteSpec>,
+}
+
+fn from_bits(v4: bool, bits: u128, len: u8) -> (IpAddr, u8) {
+    let fam = if v4 { 32 } else { 128 };
+    let len = len.min(fam);
+    let m = if len == 0 { 0 } else { u128::MAX << (128 - len as u32) };
+    let b = bits & m;
+    if v4 {
+        (IpAddr::V4(Ipv4Addr::from((b >> 96) as u32)), len)
+    } else {
+        (IpAddr::V6(Ipv6Addr::from(b)), len)
+    }
+}
+
+pub fn derive_route(vrps: &[MOrigin], s: &RouteSpec) -> Route {
+    let fallback = MOrigin::new(IpAddr::V4(Ipv4Addr::new(10, 0, 0, 0)), 8, None, 64496);
+    let v = if vrps.is_empty() { &fallback } else { &vrps[s.vrp % vrps.len()] };
+    let v4 = v.is_v4();
+    let fam: u8 = if v4 { 32 } else { 128 };
+    // low bits below the VRP's length are free
+    let low = if v.len == 0 { s.bits } else if v.len as u32 >= 128 { 0 } else { s.bits >> v.len as u32 };
+    let inside = v.bits() | low;
+    let (addr, len) = match s.rel {
+        0 => from_bits(v4, v.bits(), v.len),
+        1 => from_bits(v4, inside, v.len.saturating_add(1 + s.k % 9)),
+        2 => from_bits(v4, inside, v.max_len.saturating_sub(1).max(v.len)),
+        3 => from_bits(v4, inside, v.max_len),
+        4 => from_bits(v4, inside, v.max_len.saturating_add(1)),
+        5 => from_bits(v4, v.bits(), v.len.saturating_sub(1 + s.k % 9)),
+        6 => {
+            if v.len == 0 {
+                from_bits(v4, v.bits(), 0)
+            } else {
+                let flip = 1u128 << (128 - v.len as u32);
+                from_bits(v4, (v.bits() ^ flip) | (low & (flip - 1)), v.len.saturating_add(s.k % 3))
+            }
+        }
+        7 => {
+            // same leading bits, other family
+            if v4 {
+                from_bits(false, v.bits(), v.len.min(fam))
+            } else {
+                from_bits(true, v.bits(), v.len.min(32))
+            }
+        }
+        _ => from_bits(s.k % 2 == 0, s.bits, s.k % (if s.k % 2 == 0 { 33 } else { 129 })),
+    };
+    let next = if vrps.is_empty() { &fallback } else { &vrps[(s.vrp + 1) % vrps.len()] };
+    let asn = match s.asn_sel {
+        0 => v.asn,
+        1 => next.asn,
+        2 => 0,
+        3 => v.asn.wrapping_add(1),
+        _ => s.asn_rnd,
+    };
+    Route { addr, len, asn }
+}
+
+//------------------------------------------------------------------------------------------
+// Reference (RFC 6811 section 2)
+
+pub fn covers(v: &MOrigin, r: &Route) -> bool {
+    if v.is_v4() != r.addr.is_ipv4() || v.len > r.len {
+        return false;
+    }
+    if v.len == 0 {
+        return true;
+    }
+    (v.bits() ^ r.bits()) >> (128 - v.len as u32) == 0
+}
+
+#[derive(Clone, Debug, PartialEq, Eq)]
+pub enum RState {
+    Valid,
+    Invalid,
+    NotFound,
+}
+
+impl RState {
+    fn name(&self) -> &'static str {
+        match self {
+            RState::Valid => "valid",
+            RState::Invalid => "invalid",
+            RState::NotFound => "not-found",
+        }
+    }
+}
+
+pub struct Expect {
+    pub state: RState,
+    pub covering: Vec<MOrigin>,
+    pub matched: Vec<MOrigin>,
+    pub as_only: usize,
+    pub len_only: usize,
+    pub both: usize,
+}
+
+pub fn expect(vrps: &[MOrigin], r: &Route) -> Expect {
+    let covering: Vec<MOrigin> = vrps.iter().filter(|v| covers(v, r)).cloned().collect();
+    let matched: Vec<MOrigin> = covering.iter().filter(|v| v.asn == r.asn && r.len <= v.max_len).cloned().collect();
+    let as_only = covering.iter().filter(|v| v.asn != r.asn && r.len <= v.max_len).count();
+    let len_only = covering.iter().filter(|v| v.asn == r.asn && r.len > v.max_len).count();
+    let both = covering.iter().filter(|v| v.asn != r.asn && r.len > v.max_len).count();
+    let state = if !matched.is_empty() {
+        RState::Valid
+    } else if !covering.is_empty() {
+        RState::Invalid
+    } else {
+        RState::NotFound
+    };
+    Expect { state, covering, matched, as_only, len_only, both }
+}
+
+/// What an observation point reported for one route.
+pub struct Observed {
+    pub state: String,
+    pub reason: Option<String>,
+    pub matched: Vec<MOrigin>,
+    pub bad_asn: Vec<MOrigin>,
+    pub bad_len: Vec<MOrigin>,
+}
+
+fn sorted<T: Ord>(mut v: Vec<T>) -> Vec<T> {
+    v.sort();
+    v
+}
+
+/// The oracle. `via` names the observation point and is part of the failure key.
+pub fn judge_route(via: &str, vrps: &[MOrigin], r: &Route, obs: &Observed, info: &mut CaseInfo) -> Verdict {
+    let e = expect(vrps, r);
+    info.class(format!("leg={}", via));
+    info.class(format!("state={}", e.state.name()));
+    let verdict_kinds = (!e.matched.is_empty()) as u8 + (e.as_only > 0) as u8 + (e.len_only > 0) as u8 + (e.both > 0) as u8;
+    info.nt(e.covering.len() >= 2 && verdict_kinds >= 2);
+    if e.both > 0 {
+        info.class("vrp_fails_as_and_length");
+    }
+    if e.covering.len() >= 2 && verdict_kinds >= 2 {
+        info.class("mixed_verdicts");
+    }
+    if e.covering.iter().any(|v| v.max_len == r.len) {
+        info.class("len_eq_maxlen");
+    }
+    if e.covering.iter().any(|v| v.max_len as u16 + 1 == r.len as u16) {
+        info.class("len_eq_maxlen_plus_1");
+    }
+    let ctx = || format!("route {} AS{} against {:?}", r.text(), r.asn, vrps);
+    if obs.state != e.state.name() {
+        return Verdict::fail(format!("C20/{}/state/expected={}/got={}", via, e.state.name(), obs.state), format!("{}: state {:?}, reference {:?} (covering {:?})", ctx(), obs.state, e.state.name(), e.covering));
+    }
+    if sorted(obs.matched.clone()) != sorted(e.matched.clone()) {
+        return Verdict::fail(format!("C20/{}/matched-list", via), format!("{}: matched {:?}, reference {:?}", ctx(), obs.matched, e.matched));
+    }
+    let mut un: Vec<MOrigin> = obs.bad_asn.iter().chain(obs.bad_len.iter()).cloned().collect();
+    un.sort();
+    let ref_un: Vec<MOrigin> = sorted(e.covering.iter().filter(|v| !e.matched.contains(v)).cloned().collect());
+    if un != ref_un {
+        return Verdict::fail(format!("C20/{}/unmatched-lists", via), format!("{}: unmatched_as {:?} + unmatched_length {:?} is not the set of covering, non-matching VRPs {:?}", ctx(), obs.bad_asn, obs.bad_len, ref_un));
+    }
+    if let Some(v) = obs.bad_asn.iter().find(|v| v.asn == r.asn) {
+        return Verdict::fail(format!("C20/{}/unmatched-as-has-same-as", via), format!("{}: {:?} listed as unmatched_as", ctx(), v));
+    }
+    if let Some(v) = obs.bad_len.iter().find(|v| r.len <= v.max_len) {
+        return Verdict::fail(format!("C20/{}/unmatched-length-has-fitting-length", via), format!("{}: {:?} listed as unmatched_length", ctx(), v));
+    }
+    match (e.state == RState::Invalid, obs.reason.as_deref()) {
+        (false, None) => {}
+        (false, Some(x)) => return Verdict::fail(format!("C20/{}/reason-on-{}", via, e.state.name()), format!("{}: reason {:?} given for state {}", ctx(), x, e.state.name())),
+        (true, None) => return Verdict::fail(format!("C20/{}/reason-missing", via), format!("{}: invalid without reason", ctx())),
+        (true, Some("as")) => {
+            info.class("reason=as");
+            if obs.bad_asn.is_empty() {
+                return Verdict::fail(format!("C20/{}/reason-as-without-unmatched-as", via), ctx());
+            }
+        }
+        (true, Some("length")) => {
+            info.class("reason=length");
+            if obs.bad_len.is_empty() {
+                return Verdict::fail(format!("C20/{}/reason-length-without-unmatched-length", via), ctx());
+            }
+        }
+        (true, Some(x)) => return Verdict::fail(format!("C20/{}/reason-unknown", via), format!("{}: reason {:?}", ctx(), x)),
+    }
+    Verdict::Pass
+}
+
+fn state_name(s: RouteState) -> &'static str {
+    match s {
+        RouteState::Valid => "valid",
+        RouteState::Invalid => "invalid",
+        RouteState::NotFound => "not-found",
+    }
+}
+
+/// Decodes one "validated route" JSON object (manual: validity-checker.rst).
+pub fn decode_route_json(v: &JVal) -> Result<(Route, Observed), String> {
+    let route = v.get("route").ok_or("route member missing")?;
+    let asn = parse_asn_strict(route.get("origin_asn").and_then(|x| x.as_str()).ok_or("origin_asn missing")?)?;
+    let (addr, len) = parse_prefix(route.get("prefix").and_then(|x| x.as_str()).ok_or("prefix missing")?)?;
+    let val = v.get("validity").ok_or("validity member missing")?;
+    let state = val.get("state").and_then(|x| x.as_str()).ok_or("state missing")?.to_string();
+    let reason = match val.get("reason") {
+        None => None,
+        Some(JVal::Str(s)) => Some(s.clone()),
+        Some(_) => return Err("reason is not a string".into()),
+    };
+    val.get("description").and_then(|x| x.as_str()).ok_or("description missing")?;
+    let lists = val.get("VRPs").ok_or("VRPs member missing")?;
+    let list = |name: &str| -> Result<Vec<MOrigin>, String> {
+        let arr = lists.get(name).filter(|a| a.is_arr()).ok_or_else(|| format!("{} missing", name))?;
+        arr.items()
+            .iter()
+            .map(|i| {
+                let asn = parse_asn_strict(i.get("asn").and_then(|x| x.as_str()).ok_or("vrp asn missing")?)?;
+                let p = parse_prefix(i.get("prefix").and_then(|x| x.as_str()).ok_or("vrp prefix missing")?)?;
+                let m = parse_u8(i.get("max_length").and_then(|x| x.as_str()).ok_or("vrp max_length missing")?)?;
+                Ok(MOrigin { addr: p.0, len: p.1, max_len: m, asn })
+            })
+            .collect()
+    };
+    Ok((Route { addr, len, asn }, Observed { state, reason, matched: list("matched")?, bad_asn: list("unmatched_as")?, bad_len: list("unmatched_length")? }))
+}
+
+fn snapshot_of(vrps: &[MOrigin]) -> routinator::payload::PayloadSnapshot {
+    MSet::from_items(vrps.iter().cloned().map(MItem::Origin)).to_snapshot()
+}
+
+fn dedup(vrps: &[MOrigin]) -> Vec<MOrigin> {
+    let set: std::collections::BTreeSet<MOrigin> = vrps.iter().cloned().collect();
+    set.into_iter().collect()
+}
+
+fn routes_of(case: &Case, vrps: &[MOrigin], info: &mut CaseInfo) -> Vec<Route> {
+    case.specs
+        .iter()
+        .map(|s| {
+            info.class(format!("rel={}", s.rel.min(8)));
+            derive_route(vrps, s)
+        })
+        .collect()
+}
+
+//------------------------------------------------------------------------------------------
+// Legs
+
+/// Leg A+B: `RouteValidity::new` and the request-list readers / writers of the validate command.
+fn prop_api(case: &Case, info: &mut CaseInfo) -> Verdict {
+    let vrps = dedup(&case.vrps);
+    let snap = snapshot_of(&vrps);
+    let routes = routes_of(case, &vrps, info);
+    for r in &routes {
+        let rv = RouteValidity::new(r.prefix(), Asn::from_u32(r.asn), &snap);
+        let conv = |l: &[(rpki::rtr::payload::RouteOrigin, &routinator::payload::PayloadInfo)]| l.iter().map(|(o, _)| MOrigin::from_rpki(*o)).collect::<Vec<_>>();
+        let obs = Observed { state: state_name(rv.state()).to_string(), reason: rv.reason().map(|s| s.to_string()), matched: conv(rv.matched()), bad_asn: conv(rv.bad_asn()), bad_len: conv(rv.bad_len()) };
+        if let Verdict::Fail { key, msg } = judge_route("api", &vrps, r, &obs, info) {
+            return Verdict::Fail { key, msg };
+        }
+    }
+    if routes.is_empty() {
+        return Verdict::Pass;
+    }
+    // the validate command's file inputs: plain "PREFIX => ASN" lines and the JSON document
+    let plain: String = routes.iter().enumerate().map(|(i, r)| if i % 2 == 0 { format!("{} => {}\n", r.text(), r.asn) } else { format!("  {}   =>  AS{}  # comment {}\n\n", r.text(), r.asn, i) }).collect();
+    let json_in = serde_json::json!({"routes": routes.iter().enumerate().map(|(i, r)| if i % 2 == 0 { serde_json::json!({"asn": format!("AS{}", r.asn), "prefix": r.text()}) } else { serde_json::json!({"prefix": r.text(), "asn": r.asn}) }).collect::<Vec<_>>()}).to_string();
+    let lists = [("plain-input", RequestList::from_plain_reader(plain.as_bytes()).map_err(|e| e.to_string())), ("json-input", RequestList::from_json_reader(&mut json_in.as_bytes()).map_err(|e| e.to_string()))];
+    for (via, list) in lists {
+        let list = match list {
+            Ok(l) => l,
+            Err(e) => return Verdict::fail(format!("C20/{}/rejected", via), format!("well-formed request list rejected: {}", e)),
+        };
+        let result = list.validity(&snap);
+        let states: Vec<(Route, String)> = result.iter_state().map(|(p, a, s)| (Route { addr: p.addr(), len: p.len(), asn: a.into_u32() }, state_name(s).to_string())).collect();
+        if states.iter().map(|s| &s.0).collect::<Vec<_>>() != routes.iter().collect::<Vec<_>>() {
+            return Verdict::fail(format!("C20/{}/routes-differ", via), format!("read {:?}, written {:?}", states, routes));
+        }
+        let mut plain_out = Vec::new();
+        result.write_plain(&mut plain_out).expect("write_plain");
+        let want: String = routes.iter().map(|r| format!("{} => AS{}: {}\n", r.text(), r.asn, expect(&vrps, r).state.name())).collect();
+        if String::from_utf8_lossy(&plain_out) != want {
+            return Verdict::fail(format!("C20/{}/plain-output", via), format!("plain output {:?}, reference {:?} for VRPs {:?}", String::from_utf8_lossy(&plain_out), want, vrps));
+        }
+        let mut json_out = Vec::new();
+        result.write_json(&mut json_out).expect("write_json");
+        if let Verdict::Fail { key, msg } = judge_batch_json(via, &vrps, &routes, &json_out, info) {
+            return Verdict::Fail { key, msg };
+        }
+    }
+    Verdict::Pass
+}
+
+fn judge_batch_json(via: &str, vrps: &[MOrigin], routes: &[Route], body: &[u8], info: &mut CaseInfo) -> Verdict {
+    let doc = match JVal::parse(body) {
+        Ok(d) => d,
+        Err(e) => return Verdict::fail(format!("C20/{}/invalid-json", via), format!("{}: {:?}", e, String::from_utf8_lossy(body))),
+    };
+    let arr = match doc.get("validated_routes") {
+        Some(a) if a.is_arr() => a.items(),
+        _ => return Verdict::fail(format!("C20/{}/json-shape", via), "validated_routes missing"),
+    };
+    if arr.len() != routes.len() {
+        return Verdict::fail(format!("C20/{}/route-count", via), format!("{} routes asked, {} answered", routes.len(), arr.len()));
+    }
+    for (r, v) in routes.iter().zip(arr) {
+        let (echo, obs) = match decode_route_json(v) {
+            Ok(x) => x,
+            Err(e) => return Verdict::fail(format!("C20/{}/json-shape", via), e),
+        };
+        if echo != *r {
+            return Verdict::fail(format!("C20/{}/route-echo", via), format!("asked {:?}, answered for {:?}", r, echo));
+        }
+        if let Verdict::Fail { key, msg } = judge_route(via, vrps, r, &obs, info) {
+            return Verdict::Fail { key, msg };
+        }
+    }
+    Verdict::Pass
+}
+
+pub struct Env<'a> {
+    pub kit: &'a Kit,
+    pub rt: &'a tokio::runtime::Runtime,
+    pub ctx: &'a Ctx,
+}
+
+fn install_vrps(env: &Env, served: &Served, vrps: &[MOrigin], published: bool) {
+    if published {
+        served.update(env.kit, &[PubSpec { tal_name: "ta".into(), origins: vrps.to_vec(), aspas: vec![] }], &LocalSpec::default(), Metrics::new());
+    } else {
+        served.update(env.kit, &[], &LocalSpec { origins: vrps.iter().cloned().map(|o| (o, None)).collect(), keys: vec![] }, Metrics::new());
+    }
+}
+
+/// Leg C: the two GET endpoints through the real dispatcher.
+fn prop_http(env: &Env, case: &Case, info: &mut CaseInfo) -> Verdict {
+    let vrps = dedup(&case.vrps);
+    let served = Served::new(env.ctx.scratch(), 2, false);
+    install_vrps(env, &served, &vrps, case.specs.len() % 2 == 0);
+    let routes = routes_of(case, &vrps, info);
+    for (i, r) in routes.iter().enumerate() {
+        let (via, uri) = match i % 3 {
+            0 => ("get-path", format!("/api/v1/validity/AS{}/{}", r.asn, r.text())),
+            1 => ("get-path", format!("/api/v1/validity/{}/{}", r.asn, r.text())),
+            _ => ("get-query", format!("/validity?asn={}&prefix={}", if i % 2 == 0 { format!("AS{}", r.asn) } else { r.asn.to_string() }, pct(&r.text()))),
+        };
+        let resp = get(env.rt, &served.handler, &uri);
+        if resp.status != 200 {
+            return Verdict::fail(format!("C20/{}/status", via), format!("GET {} -> {} {:?}", uri, resp.status, String::from_utf8_lossy(&resp.body())));
+        }
+        let body = resp.body();
+        let doc = match JVal::parse(&body) {
+            Ok(d) => d,
+            Err(e) => return Verdict::fail(format!("C20/{}/invalid-json", via), format!("GET {}: {}", uri, e)),
+        };
+        let v = match doc.get("validated_route") {
+            Some(v) => v,
+            None => return Verdict::fail(format!("C20/{}/json-shape", via), "validated_route missing"),
+        };
+        let (echo, obs) = match decode_route_json(v) {
+            Ok(x) => x,
+            Err(e) => return Verdict::fail(format!("C20/{}/json-shape", via), format!("GET {}: {}", uri, e)),
+        };
+        if echo != *r {
+            return Verdict::fail(format!("C20/{}/route-echo", via), format!("GET {} answered for {:?}", uri, echo));
+        }
+        if let Verdict::Fail { key, msg } = judge_route(via, &vrps, r, &obs, info) {
+            return Verdict::Fail { key, msg };
+        }
+    }
+    Verdict::Pass
+}
+
+/// Leg D: batch POST over a real loopback listener serving `served`.
+fn prop_post(env: &Env, served: &Served, addr: SocketAddr, case: &Case, info: &mut CaseInfo) -> Verdict {
+    let vrps = dedup(&case.vrps);
+    install_vrps(env, served, &vrps, case.specs.len() % 2 == 1);
+    let routes = routes_of(case, &vrps, info);
+    let body = serde_json::json!({"routes": routes.iter().map(|r| serde_json::json!({"asn": format!("AS{}", r.asn), "prefix": r.text()})).collect::<Vec<_>>()}).to_string();
+    if body.len() > 90_000 {
+        return Verdict::Dropped("post_body_near_limit".into());
+    }
+    let (status, _, resp) = match http_request(addr, "POST", "/validity", &[("Content-Type", "application/json")], body.as_bytes()) {
+        Ok(x) => x,
+        Err(e) => return Verdict::Dropped(format!("post_transport_error:{}", e.split(':').next().unwrap_or(""))),
+    };
+    if status != 200 {
+        return Verdict::fail("C20/post/status", format!("POST /validity -> {} {:?}", status, String::from_utf8_lossy(&resp)));
+    }
+    judge_batch_json("post", &vrps, &routes, &resp, info)
+}
+
+/// Leg E: the `validate` command, in-process through clap → `Operation::run`, VRPs from a local
+/// exceptions file, no trust anchors, no network.
+fn prop_cli(env: &Env, case: &Case, info: &mut CaseInfo) -> Verdict {
+    let vrps = dedup(&case.vrps);
+    let routes = routes_of(case, &vrps, info);
+    if routes.is_empty() {
+        return Verdict::Pass;
+    }
+    let dir = env.ctx.scratch();
+    let p = |n: &str| dir.path().join(n);
+    std::fs::create_dir_all(p("tals")).unwrap();
+    std::fs::write(p("exceptions.json"), slurm_json(&LocalSpec { origins: vrps.iter().cloned().map(|o| (o, None)).collect(), keys: vec![] })).unwrap();
+    let json = case.specs.len() % 2 == 0;
+    let single = routes.len() == 1;
+    if json {
+        std::fs::write(p("in"), serde_json::json!({"routes": routes.iter().map(|r| serde_json::json!({"asn": format!("AS{}", r.asn), "prefix": r.text()})).collect::<Vec<_>>()}).to_string()).unwrap();
+    } else {
+        std::fs::write(p("in"), routes.iter().map(|r| format!("{} => {}\n", r.text(), r.asn)).collect::<String>()).unwrap();
+    }
+    let s = |x: std::path::PathBuf| x.to_string_lossy().to_string();
+    let mut args: Vec<String> = vec![
+        "routinator".into(),
+        "--config".into(),
+        s(p("none.conf")),
+        "-r".into(),
+        s(p("cache")),
+        "--no-rir-tals".into(),
+        "--extra-tals-dir".into(),
+        s(p("tals")),
+        "--disable-rsync".into(),
+        "--disable-rrdp".into(),
+        "-x".into(),
+        s(p("exceptions.json")),
+        "--logfile".into(),
+        s(p("log")),
+        "validate".into(),
+        "--noupdate".into(),
+        "-o".into(),
+        s(p("out")),
+    ];
+    if json {
+        args.push("--json".into());
+    }
+    if single {
+        info.class("cli_single_route_form");
+        args.extend(["--asn".into(), routes[0].asn.to_string(), "--prefix".into(), routes[0].text()]);
+    } else {
+        args.extend(["-i".into(), s(p("in"))]);
+    }
+    std::fs::write(p("none.conf"), format!("repository-dir = {:?}\n", s(p("cache")))).unwrap();
+    let (code, _stdout, stderr) = run_routinator(&args[1..], dir.path());
+    if code != Some(0) {
+        let log = std::fs::read_to_string(p("log")).unwrap_or_default();
+        return Verdict::fail("C20/cli/exit-status", format!("validate exited with {:?} for a well-formed request: {} {}", code, truncate(&log, 600), truncate(&String::from_utf8_lossy(&stderr), 600)));
+    }
+    let out = std::fs::read(p("out")).unwrap_or_default();
+    if json {
+        judge_batch_json("cli-json", &vrps, &routes, &out, info)
+    } else {
+        let want: String = routes.iter().map(|r| format!("{} => AS{}: {}\n", r.text(), r.asn, expect(&vrps, r).state.name())).collect();
+        for r in &routes {
+            info.class("leg=cli-plain");
+            info.class(format!("state={}", expect(&vrps, r).state.name()));
+            let e = expect(&vrps, r);
+            info.nt(e.covering.len() >= 2 && e.matched.len() < e.covering.len());
+        }
+        if String::from_utf8_lossy(&out) != want {
+            return Verdict::fail("C20/cli-plain/output", format!("output {:?}, reference {:?} for VRPs {:?}", String::from_utf8_lossy(&out), want, vrps));
+        }
+        Verdict::Pass
+    }
+}
+
+//------------------------------------------------------------------------------------------
+// Generators
+
+/// VRP sets: a few seeds plus VRPs derived from them (same prefix other AS / max-len, more and
+/// less specific), so that several VRPs cover the same routes.
+fn vrps_strategy(max_seeds: usize, max_derived: usize) -> impl Strategy<Value = Vec<MOrigin>> {
+    (prop::collection::vec(origin_strategy(), 0..=max_seeds), prop::collection::vec((any::<usize>(), -6i8..=6, 0u8..5, any::<u8>(), 0u8..4, any::<u128>()), 0..=max_derived)).prop_map(|(seeds, derived)| {
+        let mut out = seeds.clone();
+        if seeds.is_empty() {
+            return out;
+        }
+        for (idx, dlen, mclass, rnd, asel, bits) in derived {
+            let base = &seeds[idx % seeds.len()];
+            let fam: i16 = if base.is_v4() { 32 } else { 128 };
+            let len = (base.len as i16 + dlen as i16).clamp(0, fam) as u8;
+            let low = if base.len == 0 { bits } else if base.len >= 128 { 0 } else { bits >> base.len as u32 };
+            let (addr, len) = from_bits(base.is_v4(), base.bits() | low, len);
+            let max = match mclass {
+                0 => None,
+                1 => Some(len),
+                2 => Some((len + 1).min(fam as u8)),
+                3 => Some(fam as u8),
+                _ => Some(len + rnd % (fam as u8 - len + 1)),
+            };
+            let asn = match asel {
+                0 => base.asn,
+                1 => base.asn.wrapping_add(1),
+                2 => 0,
+                _ => 64496 + (rnd as u32 % 4),
+            };
+            out.push(MOrigin::new(addr, len, max, asn));
+        }
+        out
+    })
+}
+
+fn spec_strategy() -> impl Strategy<Value = RouteSpec> {
+    (any::<usize>(), prop_oneof![8 => 0u8..8, 1 => Just(8u8)], any::<u8>(), any::<u128>(), prop_oneof![5 => Just(0u8), 2 => Just(1u8), 1 => Just(2u8), 1 => Just(3u8), 1 => Just(4u8)], asn_strategy())
+        .prop_map(|(vrp, rel, k, bits, asn_sel, asn_rnd)| RouteSpec { vrp, rel, k, bits, asn_sel, asn_rnd })
+}
+
+fn case_strategy(max_routes: usize) -> impl Strategy<Value = Case> {
+    (vrps_strategy(8, 22), prop::collection::vec(spec_strategy(), 1..=max_routes)).prop_map(|(vrps, specs)| Case { vrps, specs })
+}
+
+/// Reference self-test on hand-computed RFC 6811 examples (preamble; failure = exit 2).
+fn selftest() -> Result<(), String> {
+    let v = |a: [u8; 4], len: u8, max: u8, asn: u32| MOrigin::new(IpAddr::V4(Ipv4Addr::from(a)), len, Some(max), asn);
+    let r = |a: [u8; 4], len: u8, asn: u32| Route { addr: IpAddr::V4(Ipv4Addr::from(a)), len, asn };
+    let vrps = vec![v([10, 0, 0, 0], 8, 16, 1), v([10, 1, 0, 0], 16, 24, 2), v([0, 0, 0, 0], 0, 0, 3)];
+    let cases = [
+        (r([10, 1, 0, 0], 16, 1), RState::Valid, 3usize),
+        (r([10, 1, 0, 0], 24, 2), RState::Valid, 3),
+        (r([10, 1, 0, 0], 25, 2), RState::Invalid, 3),
+        (r([10, 1, 0, 0], 17, 1), RState::Invalid, 3),
+        (r([11, 0, 0, 0], 8, 1), RState::Invalid, 1),
+        (r([0, 0, 0, 0], 0, 3), RState::Valid, 1),
+        (r([10, 0, 0, 0], 7, 1), RState::Invalid, 1),
+    ];
+    for (route, state, ncover) in cases {
+        let e = expect(&vrps, &route);
+        if e.state != state || e.covering.len() != ncover {
+            return Err(format!("reference self-test: {:?} gives {:?}/{} covering, expected {:?}/{}", route, e.state, e.covering.len(), state, ncover));
+        }
+    }
+    let v6 = MOrigin::new("2001:db8::".parse().unwrap(), 32, Some(48), 5);
+    let r6 = Route { addr: "2001:db8:1::".parse().unwrap(), len: 48, asn: 5 };
+    if expect(&[v6.clone()], &r6).state != RState::Valid || expect(&[v6.clone()], &r([32, 1, 13, 184], 32, 5)).state != RState::NotFound {
+        return Err("reference self-test: IPv6 / other-family example".into());
+    }
+    if expect(&[v6], &Route { addr: "2001:db9::".parse().unwrap(), len: 32, asn: 5 }).state != RState::NotFound {
+        return Err("reference self-test: sibling".into());
+    }
+    Ok(())
+}
+
+pub fn run(ctx: &Ctx, rep: &mut Report, replay: Option<&serde_json::Value>) {
+    rep.rule(
+        "VRP sets of 0..=30 entries (seeds from a small address pool plus VRPs derived from them: other AS / max-len, more and less specific) and 1..=12 routes derived from the VRPs (equal, inside, at max-len-1/=/+1, covering, sibling, other family, unrelated; AS equal / another VRP's / 0 / +1 / random), judged by an own u128 cover test; legs: RouteValidity::new, request-list plain+JSON readers and writers, GET /api/v1/validity/AS/prefix and /validity?asn&prefix through the real dispatcher, POST /validity over a loopback listener, the validate command line in a child process; non-trivial = route covered by >=2 VRPs with different verdicts; distinct by serialised case",
+    );
+    rep.assume("a VRP that fails both the AS and the length test may be reported in either unmatched list (the property only demands a partition); reason must agree with the reported lists; 'description' is not judged");
+    rep.assume("the validate command line is run in a child process that performs the steps of routinator's main.rs (Operation::prepare, clap parsing, Config, Operation::run) with VRPs supplied by a local-exceptions file and no trust anchors");
+    if let Err(e) = selftest() {
+        eprintln!("C20 preamble failed: {}", e);
+        std::process::exit(2);
+    }
+    let kit = Kit::new();
+    let rt = runtime();
+    let env = Env { kit: &kit, rt: &rt, ctx };
+    let start_listener = || spawn_listener(ctx);
+    if let Some(v) = replay {
+        let t: Tagged<Case> = serde_json::from_value(v.clone()).expect("replay");
+        match t.sub.as_str() {
+            "api" => run_case(ctx, rep, "api", &t.case, prop_api),
+            "http" => run_case(ctx, rep, "http", &t.case, |c, i| prop_http(&env, c, i)),
+            "post" => {
+                let (served, addr) = start_listener().unwrap_or_else(|| {
+                    eprintln!("C20: cannot start loopback listener");
+                    std::process::exit(2)
+                });
+                run_case(ctx, rep, "post", &t.case, |c, i| prop_post(&env, &served, addr, c, i))
+            }
+            "cli" => run_case(ctx, rep, "cli", &t.case, |c, i| prop_cli(&env, c, i)),
+            other => panic!("unknown sub {}", other),
+        }
+        return;
+    }
+    // VERIF_ONLY_SUB=<api|http|post|cli> restricts the run to one leg (used for sensitivity runs).
+    let only = std::env::var("VERIF_ONLY_SUB").ok();
+    let want = |s: &str| only.as_deref().map(|o| o == s).unwrap_or(true);
+    if want("api") {
+        run_prop(ctx, rep, "api", ctx.tier.pick(6_000, 250_000), case_strategy(12), prop_api);
+    }
+    if want("http") {
+        run_prop(ctx, rep, "http", ctx.tier.pick(700, 20_000), case_strategy(9), |c, i| prop_http(&env, c, i));
+    }
+    if want("post") {
+        match start_listener() {
+            Some((served, addr)) => run_prop(ctx, rep, "post", ctx.tier.pick(150, 3_000), case_strategy(40), |c, i| prop_post(&env, &served, addr, c, i)),
+            None => {
+                eprintln!("C20: cannot start loopback listener");
+                std::process::exit(2);
+            }
+        }
+    }
+    if want("cli") {
+        // one child process per case: sampled cases without shrinking (the other legs deliver
+        // shrunk counterexamples for the same oracle)
+        for case in sample_strategy(&case_strategy(6), ctx.seed_for("cli"), ctx.tier.pick(24, 400)) {
+            if rep.violated() {
+                break;
+            }
+            run_case(ctx, rep, "cli", &case, |c, i| prop_cli(&env, c, i));
+        }
+    }
 }
